@@ -11,8 +11,9 @@ the `Tokenizer` behaves (parser/src/token.rs:785-853): the real tokens, then `EO
 
 The model is the code as it is, including
  * `peek_token` returning `unprocessed_tokens.first()` (the *bottom* of the stack) whatever `n` is,
- * the unbounded `for i in 0..` of `scan_continue_block` (:159), which never ends once it is
-   inside an attribute and the tokenizer has reached EOF (finding `hang:layout:scan_continue_block`),
+ * the unbounded `for i in 0..` of `scan_continue_block` (:159) — it used to run for ever once
+   inside an attribute at end of input (finding `hang:layout:scan_continue_block`, fixed by
+   commit 3521415; the old rule is kept as `scanLoopOld`),
  * the two `expect("No top level block found")` (:359, :475) as the outcome `panic`.
 No imports: this file is linked into the native driver.
 -/
@@ -119,7 +120,7 @@ def fetch (st : St) : Except LErr (Tok × St) :=
   match st.input with
   | t :: rest =>
     if t.kind = .lexErr then .error (.lex t.loc.abs t.stop) else .ok (t, { st with input := rest })
-  | [] => .ok (st.eofTok, st)
+  | [] => .ok ({ st.eofTok with kind := .eof }, st)   -- token.rs:847: `Token::EOF`, for ever
 
 /-- layout.rs:199 `next_token`. -/
 def nextToken (st : St) : Except LErr (Tok × St) :=
@@ -142,8 +143,10 @@ inductive ScanRes where
   | hang
   deriving Repr
 
-/-- layout.rs:159-178, the body of `for i in 0..` from `i` on.  `fuel` bounds the number of
-    iterations; see `scanFuel`. -/
+/-- layout.rs:159-181, the body of `for i in 0..` from `i` on (with the arm
+    `Token::EOF => return Ok(false)` of commit 3521415).  `fuel` bounds the number of
+    iterations; `scanFuel` always suffices (theorem `scan_terminates`), so the outcome `hang`
+    is unreachable; it is kept so that a regression of the real code shows up as a mismatch. -/
 def scanLoop (expected : Kind) : Nat → Nat → Bool → Tok → St → ScanRes
   | 0, _, _, _, _ => .hang
   | fuel + 1, i, inAttr, first, st =>
@@ -156,14 +159,14 @@ def scanLoop (expected : Kind) : Nat → Nat → Bool → Tok → St → ScanRes
     | .ok (some t, st') =>
       if t.kind = expected then .done true st'
       else match t.kind with
+        | .eof => .done false st'
         | .attrOpen => scanLoop expected fuel (i + 1) true first st'
         | .doc => scanLoop expected fuel (i + 1) inAttr first st'
         | .rbracket => scanLoop expected fuel (i + 1) false first st'
         | _ => if inAttr then scanLoop expected fuel (i + 1) inAttr first st' else .done false st'
 
-/-- After `unproc.length + input.length + 2` iterations the token examined is the tokenizer's
-    EOF and stays so for ever: running out of this fuel *is* the non-termination of the Rust
-    loop (theorem `scan_hang_is_divergence`). -/
+/-- Enough iterations: each one either re-reads a buffered token, consumes a token of the
+    input, or meets the tokenizer's EOF and returns (theorem `scan_terminates`). -/
 def scanFuel (st : St) : Nat := st.unproc.length + st.input.length + 3
 
 /-- layout.rs:148 `scan_continue_block`. -/
@@ -428,10 +431,12 @@ def initial (input : List Tok) (eofTok : Tok) : St :=
 def layout (input : List Tok) (eofTok : Tok) (fuel : Nat) : List Tok × Outcome :=
   run true fuel (initial input eofTok) []
 
-/-! ### The repaired scan (suggested fix for finding `hang:layout:scan_continue_block`)
+/-! ### The old rule (before commit 3521415; finding `hang:layout:scan_continue_block`, fixed)
 
-`scan_continue_block` with one more arm: `Some(Token::EOF) => return Ok(false)`. -/
-def scanLoopFixed (expected : Kind) : Nat → Nat → Bool → Tok → St → ScanRes
+`scan_continue_block` without the arm `Token::EOF => return Ok(false)`: once inside an
+attribute at end of input it peeked EOF for ever.  Kept only for the regression theorems
+`scan_old_rule_…`. -/
+def scanLoopOld (expected : Kind) : Nat → Nat → Bool → Tok → St → ScanRes
   | 0, _, _, _, _ => .hang
   | fuel + 1, i, inAttr, first, st =>
     let peeked : Except LErr (Option Tok × St) :=
@@ -443,10 +448,9 @@ def scanLoopFixed (expected : Kind) : Nat → Nat → Bool → Tok → St → Sc
     | .ok (some t, st') =>
       if t.kind = expected then .done true st'
       else match t.kind with
-        | .eof => .done false st'
-        | .attrOpen => scanLoopFixed expected fuel (i + 1) true first st'
-        | .doc => scanLoopFixed expected fuel (i + 1) inAttr first st'
-        | .rbracket => scanLoopFixed expected fuel (i + 1) false first st'
-        | _ => if inAttr then scanLoopFixed expected fuel (i + 1) inAttr first st' else .done false st'
+        | .attrOpen => scanLoopOld expected fuel (i + 1) true first st'
+        | .doc => scanLoopOld expected fuel (i + 1) inAttr first st'
+        | .rbracket => scanLoopOld expected fuel (i + 1) false first st'
+        | _ => if inAttr then scanLoopOld expected fuel (i + 1) inAttr first st' else .done false st'
 
 end GluonModel.LayoutAlgo
